@@ -53,6 +53,57 @@ func lockProbe(dir string, holdMs int) {
 	}
 }
 
+// closeOrder: a store with many frozen, unflushed memtables is closed while the directory is watched:
+// at the instant the LOCK file is gone the segment files are counted, and again when Close has returned.
+func closeOrder(r *rand.Rand, dir string, t *Trace) {
+	os.RemoveAll(dir)
+	cfg := comet.DefaultStorageConfig(dir)
+	cfg.FlushThreshold = 1 << 60
+	cfg.CompactionInterval = time.Hour
+	cfg.MemtableSizeLimit = 1 // every add rotates: one frozen memtable per document
+	v, _ := comet.NewFlatIndex(2, comet.Euclidean)
+	cfg.VectorIndexTemplate = v
+	st, err := comet.OpenPersistentHybridIndex(cfg)
+	if err != nil {
+		panic(err)
+	}
+	n := 20 + r.Intn(30)
+	for i := 0; i < n; i++ {
+		st.AddWithID(uint32(i+1), []float32{float32(i), 1}, "", nil)
+	}
+	pending := st.VerifMemtableCount() - 1
+	countSegs := func() int {
+		c := 0
+		for _, f := range segFiles(dir) {
+			if strings.HasPrefix(f, "hybrid_") {
+				c++
+			}
+		}
+		return c
+	}
+	done := make(chan error, 1)
+	go func() { done <- st.Close() }()
+	atUnlock := -1
+	var cerr error
+	closed := false
+	for !closed {
+		select {
+		case cerr = <-done:
+			closed = true
+		default:
+			if atUnlock < 0 && !lockExists(dir) {
+				atUnlock = countSegs()
+			}
+		}
+	}
+	if atUnlock < 0 {
+		atUnlock = countSegs() // the lock went and Close returned between two looks
+	}
+	atEnd := countSegs()
+	t.Emit(NewCase(1701).N(pending).N(atUnlock).N(atEnd).N(lockCode(cerr)).B(lockExists(dir)), "lock.close_order")
+	os.RemoveAll(dir)
+}
+
 func genC17(r *rand.Rand, t *Trace, thorough bool) {
 	n := 40
 	if thorough {
@@ -63,6 +114,10 @@ func genC17(r *rand.Rand, t *Trace, thorough bool) {
 		work = os.TempDir()
 	}
 	self, _ := os.Executable()
+	for it := 0; it < 4+n/40; it++ {
+		storeCaseCounter++
+		closeOrder(r, filepath.Join(work, "stores", fmt.Sprintf("lo%d_%d", os.Getpid(), storeCaseCounter)), t)
+	}
 	for it := 0; it < n; it++ {
 		storeCaseCounter++
 		dir := filepath.Join(work, "stores", fmt.Sprintf("l%d_%d", os.Getpid(), storeCaseCounter))
